@@ -1269,8 +1269,9 @@ def gen_floor_cyclechange(rng, idx, big=False):
     """Cycle time changed under a held part: several feeders (so that somebody is refused meanwhile) into single-slot
     devices and a sink whose cycle time is set to another value -- often to 0 -- or offset for one cycle WHILE a part
     is held, and zero-cycle devices / sinks that get a positive one-shot offset (their next cycle is not instantaneous
-    although their cycle time reads 0 when it ends).  Whatever the cycle time reads at the end of a cycle, the slot
-    is free then and the refused upstreams have to be told."""
+    although their cycle time reads 0 when it ends); half of the scenarios also set cycle times and give one-shot offsets
+    from outside before the first run.  Whatever the cycle time reads at the end of a cycle, the slot is free then and
+    the refused upstreams have to be told; a cycle lasts what cycle time + offset were when it started."""
     L = _hdr(rng, idx)
     B = FloorBuilder(rng)
     srcs = [B.dev('source', cyc=rng.choice([1, 2, 3, 4, 6]), budget=rng.choice(['inf', 'inf', '4', '8']), pval=0)
@@ -1296,7 +1297,25 @@ def gen_floor_cyclechange(rng, idx, big=False):
         else:
             sched.append((t, ['setcycle', str(d), str(rng.choice([0, 0, 4, 8]))]))
     _sched_ops(L, rng, sched)
-    L.append(['run', str(rng.choice([64, 96]))])
+    if rng.random() < 0.5:
+        # the same operations from outside BEFORE the first run (the devices are not initialised yet): a one-shot
+        # offset given then counts for the first cycle of a source / handler / machine / sink
+        for _ in range(rng.randint(1, 4)):
+            d = rng.choice(srcs + mids + [sink, sink])
+            if rng.random() < 0.7:
+                L.append(['ext', 'offset', str(d), str(rng.choice([3, 5, 8, 10, -2]))])
+            else:
+                # (never 0 for a source: with an unlimited budget it would supply without end at one instant)
+                L.append(['ext', 'setcycle', str(d), str(rng.choice([2, 6] if d in srcs else [0, 2, 6]))])
+    horizon = rng.choice([64, 96])
+    if rng.random() < 0.25:
+        a = rng.choice([0, 5, 16])
+        L.append(['run', str(a)])
+        if rng.random() < 0.5:
+            L.append(['ext', 'offset', str(rng.choice(srcs + mids + [sink])), str(rng.choice([4, 9]))])
+        L.append(['run', str(horizon - a)])
+    else:
+        L.append(['run', str(horizon)])
     L.append(['end'])
     return L
 
